@@ -633,8 +633,8 @@ impl Check for C16 {
 
     fn runs(&self, tier: Tier) -> u64 {
         match tier {
-            Tier::Quick => 30_000,
-            Tier::Thorough => 1_500_000,
+            Tier::Quick => 40_000,
+            Tier::Thorough => 2_000_000,
         }
     }
 
